@@ -98,15 +98,28 @@ QWidget {
     id: root
     QCheckBox { id: chk }
     VfWidget { id: a }
+    QSlider { id: sl1 }
+    QSlider { id: sl2; %s }
     VfWidget { id: t0; %s }
 }
 """
     BODIES = ["vval: { a.doIt() }", "vval: { console.log(1) }", "vval: { if (chk.checked) { a.doIt() } }", "vval: a.doIt()",
               "vval: { if (chk.checked) return 1; }", "vval: { switch (a.ival) { case 1: return \"x\"; } }", "vval: { let x = a.ival }",
-              "ival: { a.doIt() }", "sval: { if (chk.checked) return \"x\"; a.doIt() }", "bval: { }", "vval: { }", "vval: { return; }"]
+              "ival: { a.doIt() }", "sval: { if (chk.checked) return \"x\"; a.doIt() }", "bval: { }", "vval: { }", "vval: { return; }",
+              # a value of a flag type next to an enumerator of the enum it wraps (two types, one conversion) in the branches of a
+              # ternary / if: every temporary the conversion needs is assigned on the path that reads it
+              "opts: chk.checked ? a.opts : VfWidget.OptX", "opts: chk.checked ? VfWidget.OptY : a.opts",
+              "opts: { if (chk.checked) { return a.opts } return VfWidget.OptX }", "opts: chk.checked ? (a.bval ? a.opts : VfWidget.OptZ) : VfWidget.OptX",
+              "onIvalChanged: { a.opts = chk.checked ? a.opts : VfWidget.OptX }", "onIvalChanged: { let o = chk.checked ? VfWidget.OptY : a.opts; a.opts = o }",
+              # (Qt.Vertical denotes the flag alias Qt::Orientations, QSlider::orientation is a Qt::Orientation)
+              "@sl2 orientation: chk.checked ? sl1.orientation : Qt.Vertical", "@sl2 orientation: chk.checked ? Qt.Horizontal : sl1.orientation",
+              "onIvalChanged: { sl2.orientation = chk.checked ? sl1.orientation : Qt.Vertical }",
+              "onIvalChanged: { sl2.orientation = chk.checked ? Qt.Vertical : (a.bval ? sl1.orientation : Qt.Horizontal) }",
+              "@sl2 orientation: { if (chk.checked) { return sl1.orientation } return Qt.Vertical }",
+              "mode: chk.checked ? a.mode : VfWidget.ModeB", "opts: chk.checked ? a.opts | VfWidget.OptX : VfWidget.OptY"]
 
     def __init__(self, body):
-        self.source = self.SOURCE % body
+        self.source = self.SOURCE % ((body[5:], "") if body.startswith("@sl2 ") else ("", body))
         self.bindings, self.handlers, self.features = [], [], set()
 
     def drop_rejected(self, diagnostics):
